@@ -99,15 +99,50 @@ func runC11(a *A) {
 		lexerMakes := map[string]bool{}
 		tokT := a.Named("rsql", "Token")
 		typeF := a.FieldOf(tokT, "Type")
-		for _, fn := range a.ModFuncs {
-			if fn.Signature.Recv() == nil || !isNamedType(fn.Signature.Recv().Type(), modPath+"/rsql", "Lexer") {
-				continue
+		_ = typeF
+		// a token type the lexer can produce: a TokenType constant used as a value (stored, returned,
+		// passed on, merged) - not merely compared with - in a method of Lexer, one of its closures, or a
+		// function of the package such a method calls (a lookup table of punctuation, a token maker)
+		lexFns := map[*ssa.Function]bool{}
+		var addFn func(fn *ssa.Function, d int)
+		addFn = func(fn *ssa.Function, d int) {
+			if fn == nil || fn.Blocks == nil || lexFns[fn] || d > 3 {
+				return
 			}
-			for _, st := range storesToField(fn, typeF) {
-				if k, ok := st.Val.(*ssa.Const); ok && k.Value != nil {
-					lexerMakes[k.Value.ExactString()] = true
+			lexFns[fn] = true
+			for _, an := range fn.AnonFuncs {
+				addFn(an, d)
+			}
+			allInstrs(fn, func(in ssa.Instruction) {
+				if callee := staticCallee(in); callee != nil && callee.Pkg == a.Pkg("rsql") {
+					if callee.Signature.Recv() != nil && isNamedType(callee.Signature.Recv().Type(), modPath+"/rsql", "Parser") {
+						return
+					}
+					addFn(callee, d+1)
 				}
+			})
+		}
+		for _, fn := range a.ModFuncs {
+			if fn.Signature.Recv() != nil && isNamedType(fn.Signature.Recv().Type(), modPath+"/rsql", "Lexer") {
+				addFn(fn, 0)
 			}
+		}
+		for fn := range lexFns {
+			allInstrs(fn, func(in ssa.Instruction) {
+				if bo, ok := in.(*ssa.BinOp); ok {
+					switch bo.Op {
+					case token.EQL, token.NEQ, token.LSS, token.LEQ, token.GTR, token.GEQ:
+						return
+					}
+				}
+				for _, op := range in.Operands(nil) {
+					if k, ok := (*op).(*ssa.Const); ok && k.Value != nil {
+						if nt, ok := k.Type().(*types.Named); ok && nt.Obj().Name() == "TokenType" && nt.Obj().Pkg() == a.Pkg("rsql").Pkg {
+							lexerMakes[k.Value.ExactString()] = true
+						}
+					}
+				}
+			})
 		}
 		names := map[string]string{}
 		for n, m := range a.Pkg("rsql").Members {
@@ -144,7 +179,7 @@ func runC11(a *A) {
 		}
 		sort.Strings(ks)
 		if len(lexerMakes) == 0 {
-			a.Und("token-types", token.NoPos, "no Token{Type: const} construction found in the lexer")
+			a.Und("token-types", token.NoPos, "no TokenType constant is used as a value in the lexer")
 			return
 		}
 		for _, k := range ks {
